@@ -15,7 +15,12 @@ def run(chk):
         "classifiers are functions of the exception (classify_for_breaker calls the retry's classifier again)",
         "a nested policy's RetryExhaustedError carries last_class=TRANSIENT in the scripts",
     ]
-    pc.run_policy_check(chk, "C09", "proj_P09", OPTS)
+    ok = chk.check_theorems()
+    pc.run_policy_check(chk, "C09", "proj_P09", OPTS, theorems_ok=ok)
+    if ok:
+        import source_tie
+        source_tie.report(chk, source_tie.policy_tie(chk), "policy",
+                          "policy-level call sequences (breaker cycles, every delivery kind of the inner run): no property violation found")
 
 
 def replay(path):
